@@ -58,7 +58,9 @@ Payload  == {"json", "nonjson", "empty"}
 \* nested messages: absent / empty / populated variants
 PushCfg  == {"absent", "empty", "endpoint", "attributes", "badattributes", "auth"}
 ExpPol   == {"absent", "empty", "negative", "zero", "valid", "huge"}
-RetryPol == {"absent", "empty", "valid", "negative", "zero", "huge"}
+\* retry policy: the two bounds are optional independently ("minonly" / "maxonly"), and one of them
+\* may be zero while the other is set
+RetryPol == {"absent", "empty", "valid", "negative", "zero", "huge", "minonly", "maxonly", "minzero", "maxzero"}
 DLPol    == {"absent", "empty", "valid", "topicless", "unknowntopic", "wrongkindtopic",
              "att_min", "att_neg1", "att_zero", "att_one", "att_large"}
 Filt     == {"empty", "valid", "invalid"}
